@@ -66,7 +66,7 @@ import itertools
 
 from mc.boot import HarnessError
 from mc.pool import pmap, ncpu
-from mc.report import VioBag, jdump, wsize
+from mc.report import jdump, wsize
 from mc.explore import history as H
 
 NEEDS_TABLES = True
